@@ -310,7 +310,8 @@ def run_uri_chunk(job):
 # --------------------------------------------------------------------------------------------
 
 def run_cli_subprocess_chunk(job):
-    """job = {kind, seed, paths:[str]} — `octave write --content … -- <path>` with cwd = sandbox."""
+    """job = {kind, seed, paths:[str], cmd} — `octave write --content … -- <path>` (default) or `octave normalize f.md -o <path>` /
+    `octave seal f.md -o <path>` (the CLI's other ways to name a file to write) with cwd = sandbox."""
     import subprocess
     top, root = P.new_root("c")
     try:
@@ -325,7 +326,14 @@ def run_cli_subprocess_chunk(job):
             if "\x00" in p or not P.safe_to_drive(top, cwd, p):
                 continue
             cls = P.classify_path(cwd, p)
-            pr = subprocess.run(["/venv/bin/octave", "write", "--content", P.OCT, "--", p], cwd=cwd, capture_output=True, text=True, timeout=120)
+            cmd = job.get("cmd", "write")
+            if cmd == "write":
+                argv = ["/venv/bin/octave", "write", "--content", P.OCT, "--", p]
+            else:
+                if p.startswith("-"):
+                    continue
+                argv = ["/venv/bin/octave", cmd, "g.oct.md", "-o", p]
+            pr = subprocess.run(argv, cwd=cwd, capture_output=True, text=True, timeout=120)
             snap1 = P.snapshot(top)
             changed = sorted(k for k in set(snap0) | set(snap1) if snap0.get(k) != snap1.get(k))
             results.append({"p": p0, "cls": cls, "rc": pr.returncode, "err": (pr.stderr or "")[-120:], "changed": changed[:6],
